@@ -54,6 +54,12 @@ def programs(ctx, n):
             if rng.random() < 0.3:
                 p.append({'part': 'initial', 'head': ('norm', 'q(1)', rng.randint(1, 3)), 'body': []})
                 p.append({'part': 'dynamic', 'head': ('norm', '-q(2)', rng.randint(1, 2)), 'body': [('n', ('patom', 'a', 0))]})
+            if rng.random() < 0.4:
+                # classically negated atoms (an odd or even number of them) textually BEFORE positive future heads: sign bookkeeping of future predicates
+                pre = [{'part': 'always', 'head': ('norm', '-c', 0), 'body': [('n', ('patom', 'a', 0))]}]
+                if rng.random() < 0.5:
+                    pre.append({'part': 'always', 'head': ('norm', 'zz', 0), 'body': [('n', ('patom', '-c', 0)), ('p', ('patom', '-c', 1))][:rng.randint(1, 2)]})
+                p = pre + p + [{'part': rng.choice(['always', 'dynamic']), 'head': ('norm', rng.choice(atoms), rng.randint(1, 2)), 'body': [('p', ('patom', rng.choice(atoms), 0))]}]
         elif k < 0.8:
             p = gen.context_program(rng, atoms)
             for _ in range(rng.randint(1, 2)):
